@@ -1214,7 +1214,41 @@ func ruleM6(c *Ctx, e *Env, rule string, forC05 bool) {
 	for _, mod := range []string{"x/ecocredit", "x/data"} {
 		mm := e.Model(mod)
 		pp := mm.P
-		for _, fn := range mm.subjectFns(false) {
+		// a site in an unexported helper that only the registered invariant of its package uses is named
+		// after that invariant (the first such site per operation; further ones keep the helper's name), so
+		// that moving the call into or out of a helper does not change what it is called
+		ownerOf := map[*ssa.Function]*ssa.Function{}
+		if mod == "x/ecocredit" {
+			gg := NewGraph(pp)
+			for _, rt := range []*ssa.Function{findFn(mm, "x/ecocredit/v3/basket/keeper", "SupplyInvariant"), findFn(mm, "x/ecocredit/v3/base/keeper", "BatchSupplyInvariant")} {
+				if rt == nil {
+					continue
+				}
+				inv := gg.Closure([]*ssa.Function{rt})
+				for f := range inv {
+					if f == rt || fnPkgPath(f) != fnPkgPath(rt) || f.Parent() != nil || ast.IsExported(f.Name()) {
+						continue
+					}
+					// every caller inside the package is itself part of the invariant
+					only := true
+					for _, g2 := range mm.subjectFns(false) {
+						if fnPkgPath(g2) != fnPkgPath(rt) || inv[g2] {
+							continue
+						}
+						for _, ci := range callsIn(g2) {
+							if ci.Common().StaticCallee() == f {
+								only = false
+							}
+						}
+					}
+					if only {
+						ownerOf[f] = rt
+					}
+				}
+			}
+		}
+		usedOwnerKey := map[string]bool{}
+		for _, fn := range sortedFns(fnSet(mm.subjectFns(false))) {
 			if strings.HasSuffix(fnPkgPath(fn), mathPkgSuffix) || isCanaryFn(fn) {
 				continue
 			}
@@ -1226,6 +1260,12 @@ func ruleM6(c *Ctx, e *Env, rule string, forC05 bool) {
 				c.Count("rounding_call_sites", 1)
 				fk := funcKey(fn)
 				key := fk + "#" + mathFnName(sc)
+				if rt := ownerOf[fn]; rt != nil {
+					if ok2 := funcKey(rt) + "#" + mathFnName(sc); !usedOwnerKey[ok2] && !fnCallsRounding(rt, mathFnName(sc)) {
+						usedOwnerKey[ok2] = true
+						key = ok2
+					}
+				}
 				isBacking := strings.Contains(fk, "basket/keeper")
 				if forC05 && !isBacking {
 					continue
@@ -1238,6 +1278,16 @@ func ruleM6(c *Ctx, e *Env, rule string, forC05 bool) {
 			}
 		}
 	}
+}
+
+// fnCallsRounding: fn itself contains a call of the named types/math operation.
+func fnCallsRounding(fn *ssa.Function, op string) bool {
+	for _, ci := range callsIn(fn) {
+		if sc := ci.Common().StaticCallee(); sc != nil && strings.HasSuffix(fnPkgPath(sc), mathPkgSuffix) && mathFnName(sc) == op {
+			return true
+		}
+	}
+	return false
 }
 
 func pos0(p *Program, fn *ssa.Function) bool {
@@ -1585,7 +1635,6 @@ func placesGuarded(fn *ssa.Function, max *ssa.Parameter, depth int) bool {
 	})
 	return ok
 }
-
 
 // finiteGuarded: on every path of fn to a success return the atom "Form == apd.Finite" has been decided
 // true — by a test in fn itself (an == taken, a != not taken; switch case, if chain, early return alike)
